@@ -245,11 +245,17 @@ func kaOps(thorough bool) []kaOp {
 		"stateA:login", "stateA:config", "stateB:login", "stateB:play", "closeA", "promote", "stateA:play", "closeB"}
 	if thorough {
 		ops = append(ops, "sendB2", "stateB:config", "reply164")
+		ops = append(ops, kaExtraOps...)
 	}
 	return ops
 }
 
-var stByName = map[string]*state.Registry{"login": state.Login, "config": state.Config, "play": state.Play}
+// kaExtraOps (quantifier audit): ">64 pending" also on the IN-FLIGHT backend; a reply for the OLDEST SURVIVING flood
+// id (101: the other side of the eviction boundary from 100); a backend conn that is still in HANDSHAKE (the other
+// not-config-not-play state a backend conn passes through). Quick: rigs config and join; thorough: every rig.
+var kaExtraOps = []kaOp{"floodB", "reply101", "stateA:handshake", "stateB:handshake"}
+
+var stByName = map[string]*state.Registry{"login": state.Login, "config": state.Config, "play": state.Play, "handshake": state.Handshake}
 
 // kaSkipNew (mutant bookkeeping only): run the check as it was before the config/join rigs and the real backend
 // handlers were added, to show that a mutant is caught by the added dimensions alone.
@@ -316,6 +322,11 @@ func runKAHistory0(rig string, h []kaOp) bfs.Outcome {
 				w.send(0, id)
 			}
 			recency[0] = nil // ids 1,2 are evicted by 65 newer entries (capacity 64)
+		case s == "floodB":
+			for _, id := range floodIDs {
+				w.send(1, id)
+			}
+			recency[1] = nil
 		case strings.HasPrefix(s, "state"):
 			i := int(s[5] - 'A')
 			w.b[i].conn.st = stByName[s[7:]]
@@ -371,7 +382,7 @@ func runKAHistory0(rig string, h []kaOp) bfs.Outcome {
 		for _, wr := range kb.writes {
 			fw[wr.id]++
 		}
-		for _, id := range []int64{1, 2, 100, 164} {
+		for _, id := range []int64{1, 2, 100, 101, 164} {
 			o := kb.sends[id] - fw[id]
 			if o > 2 {
 				o = 2
@@ -464,6 +475,16 @@ func kaScenarios() []schedrun.Scenario {
 			x.Go("switch", func() { w.promote() })
 			endCheck(x, w)
 		}},
+		{Name: "reply-vs-inflight-send-same-id", Quick: 2, Thorough: 3, Body: func(x *sched.X) {
+			// the CURRENT backend has id 7 pending; the IN-FLIGHT backend sends the same id (through its real config
+			// handler) while two replies are being handled
+			w := newKAWorld()
+			w.send(0, 7)
+			x.Go("r1", func() { w.reply(7) })
+			x.Go("r2", func() { w.reply(7) })
+			x.Go("backendB", func() { w.send(1, 7) })
+			endCheck(x, w)
+		}},
 		{Name: "reply-vs-flood", Quick: 1, Thorough: 2, Body: func(x *sched.X) {
 			w := newKAWorld()
 			w.send(0, 1)
@@ -538,6 +559,14 @@ func TestVerif(t *testing.T) {
 					ops = append(ops, "sendB2") // thorough already has it
 				}
 			}
+			if !r.Thorough() && rig != "play" && !kaSkipNew {
+				for _, op := range kaExtraOps {
+					if rig == "join" && strings.Contains(string(op), "A") {
+						continue
+					}
+					ops = append(ops, op)
+				}
+			}
 			name := kaScenarioOf(rig)
 			d := depth
 			if rig == "config" {
@@ -548,7 +577,7 @@ func TestVerif(t *testing.T) {
 			res := bfs.Explore(bfs.Config[kaOp]{
 				Name: name, Ops: ops, Depth: d, Run: runKAHistoryRig(rig),
 				Enabled: func(h []kaOp, op kaOp) bool {
-					if op == "floodA" || op == "promote" || op == "closeA" || op == "closeB" {
+					if op == "floodA" || op == "floodB" || op == "promote" || op == "closeA" || op == "closeB" {
 						for _, p := range h {
 							if p == op {
 								return false // once per history
@@ -584,7 +613,7 @@ func TestVerif(t *testing.T) {
 		if kaSkipNew {
 			var old []schedrun.Scenario
 			for _, sc := range scs {
-				if sc.Name != "join-replies-vs-promotion" && sc.Name != "reply-vs-resend-through-play-handler" {
+				if sc.Name != "join-replies-vs-promotion" && sc.Name != "reply-vs-resend-through-play-handler" && sc.Name != "reply-vs-inflight-send-same-id" {
 					old = append(old, sc)
 				}
 			}
